@@ -18,6 +18,7 @@ import (
 	"bytes"
 	"crypto/sha256"
 	"fmt"
+	"github.com/decred/dcrd/dcrec/secp256k1/v4"
 	"math/big"
 	"os"
 	"sort"
@@ -937,6 +938,25 @@ func (w *world) buildR3(m *mem, deviate bool) *item {
 			if v%2 == 1 {
 				it.complaints = append(it.complaints, w.describe(m, *c, true, devk))
 				all = append(all, *c)
+			}
+		case "false":
+			if v%3 == 2 {
+				// the REAL key-sym in another encoding of the same curve point (65-byte uncompressed / hybrid form), with
+				// the proof made over those bytes: still a complaint about whatever share was dealt, so it must succeed
+				// exactly when the share is bad - the encoding of the evidence must not decide the outcome
+				if pk, perr := secp256k1.ParsePubKey(c.KeySym); perr == nil {
+					alt := pk.SerializeUncompressed()
+					if (v/3)%2 == 1 { // hybrid form: 0x06 | (y & 1)
+						alt[0] = 0x06 | (alt[64] & 1)
+					}
+					sig, err := forgeComplaintProof(w.r1InfoOf(m.id).OneTimePubKey, w.r1InfoOf(r.id).OneTimePubKey, m.dkg.OneTimePrivKey, tss.Point(alt), w.c.Seed, m.idx)
+					if err != nil {
+						w.fail("harness", "forgeComplaintProof: %v", err)
+						return nil
+					}
+					c.KeySym, c.Signature = tss.Point(alt), sig
+					w.v.Class("complain-keysym-in-uncompressed-encoding")
+				}
 			}
 		case "badkeysym":
 			switch v % 3 {
